@@ -121,11 +121,17 @@ def register(db):
     # ---- queue administration: declaring must never disturb a queue that already exists (every enqueue and every
     # consumer start goes through queue_declare first); flush/delete empty exactly the named queue
     QN = "self.queues[queue_name]"
-    same = (f"{QN}.simple == old({QN}.simple) and {QN}.delayed == old({QN}.delayed)"
+    same = (f"queue_name in self.queues and {QN}.simple == old({QN}.simple) and {QN}.delayed == old({QN}.delayed)"
             f" and {QN}.dead == old({QN}.dead) and {QN}.processing == old({QN}.processing)")
     empty = f"len({QN}.simple) == 0 and len({QN}.dead) == 0 and len({QN}.processing) == 0 and len({QN}.delayed) == 0"
     db.contract(
-        fn=B + "queue_declare", serves=["C01"], raises=[],
+        fn=B + "queue_declare", serves=["C01"], cancel_at_yield=True,
+        # cancelled at either await: an existing queue still has every message, other queues are as they were
+        raises=[Raises("CancelledError", mode="may",
+                       ensures={"existing_queue_keeps_every_message": f"implies(old(queue_name in self.queues), {same})",
+                                "other_queues_still_declared":
+                                    "forall_str(k, implies(k != queue_name, (k in self.queues) == old(k in self.queues)))"},
+                       modifies=["self.queues"])],
         lets={"q_before": "self.queues[queue_name]"},     # names the queue object of the pre-state (lazily created map entry)
         ensures={"declared": "queue_name in self.queues", "other_queues_still_declared": "forall_str(k, implies(k != queue_name, (k in self.queues) == old(k in self.queues)))",
                  "existing_queue_keeps_every_message": f"implies(old(queue_name in self.queues), {same})",
